@@ -290,7 +290,12 @@ def check_dispatcher(chk, tu):
     chk.require(calls, 'no indirect reader call in wasmModuleReadSection')
     call = calls[0]
     args = [astdb.expr_text(strip(a, casts=True)) for a in astdb.call_args(call)]
-    chk.expect(len(args) == 3 and args[1] == 'sectionSize', 'R08.3', 'reader-gets-size', 'the section reader is called with %r' % (args,), site)
+    # the declared section size: the local filled by the one LEB128 read of this function (whatever it is called)
+    lebs = [c for c in walk(body) if c.get('kind') == 'CallExpr' and astdb.callee_name(c) == 'leb128ReadU32']
+    chk.require(len(lebs) == 1, 'wasmModuleReadSection has %d leb128ReadU32 calls, expected the one reading the section size' % len(lebs))
+    size_var = astdb.expr_text(strip(astdb.call_args(lebs[0])[1], casts=True)).lstrip('&')
+    chk.require(re.fullmatch(r'\w+', size_var) is not None, 'section size is read into %r' % size_var)
+    chk.expect(len(args) == 3 and args[1] == size_var, 'R08.3', 'reader-gets-size', 'the section reader is called with %r' % (args,), site)
 
     def fact_eq(c, truth):
         out = []
@@ -337,12 +342,12 @@ def check_dispatcher(chk, tu):
             texts = [exp.get(v, []) + [v] for v in pair]
             flat = [' | '.join(t) for t in texts]
             has_end = any(any(re.fullmatch(r'reader->buffer\.data', d) for d in t) for t in texts)
-            has_exp = any(any(re.fullmatch(r'(\w+)\s*\+\s*sectionSize', d) for d in t) for t in texts)
+            has_exp = any(any(re.fullmatch(r'(\w+)\s*\+\s*' + size_var, d) for d in t) for t in texts)
             if has_end and has_exp:
                 # the base of the expected end must be the snapshot taken before the call
                 for t in texts:
                     for d in t:
-                        m = re.fullmatch(r'(\w+)\s*\+\s*sectionSize', d)
+                        m = re.fullmatch(r'(\w+)\s*\+\s*' + size_var, d)
                         if m:
                             snap = defs.get(m.group(1), [])
                             good = any(dd == 'reader->buffer.data' and o < order[id(call)] for o, dd in snap)
@@ -351,13 +356,73 @@ def check_dispatcher(chk, tu):
                    '(facts: %r): a reader that consumes more or less than the section would silently desynchronise the following sections'
                    % (astdb.loc_str(nd), [sorted(e) for e in eqs]), site + ':size-check', astdb.loc_str(nd))
     skips = [c for c in walk(body) if c.get('kind') == 'CallExpr' and astdb.callee_name(c) == 'bufferSkip']
-    ok = len(skips) == 1 and [astdb.expr_text(strip(a, casts=True)) for a in astdb.call_args(skips[0])] == ['&reader->buffer', 'sectionSize']
+    ok = len(skips) == 1 and [astdb.expr_text(strip(a, casts=True)) for a in astdb.call_args(skips[0])] == ['&reader->buffer', size_var]
     chk.expect(ok, 'R08.3', 'unknown-skipped-by-size', 'sections without a reader are skipped with %r' %
                ([[astdb.expr_text(a) for a in astdb.call_args(s)] for s in skips],), site + ':skip')
     # bound check of the id against the table length
-    conds = [astdb.expr_text(strip(n['inner'][0], casts=True)) for n in walk(body) if n.get('kind') == 'IfStmt']
-    chk.expect(any(re.fullmatch(r'sectionID\s*<\s*sectionParsersCount', c) for c in conds), 'R08.3', 'id-bounds',
-               'no bounds check of the section id against the reader table (conditions: %r)' % conds[:6], site + ':bounds')
+    # every subscript of the table is inside the true branch of `index < (number of table entries)`
+    tname = vd.get('name')
+    m_len = re.search(r'\[(\d+)\]', astdb.qtype(vd) or '')
+    tlen = int(m_len.group(1)) if m_len else len(entries)
+
+    def is_table_len(n):
+        n = strip(n, casts=True)
+        v = astdb.const_int(n, tu)
+        if v is not None:
+            return v == tlen
+        if n.get('kind') == 'DeclRefExpr' and n['referencedDecl'].get('kind') == 'VarDecl':
+            ds = [x for x in walk(body) if x.get('kind') == 'VarDecl' and x.get('id') == n['referencedDecl']['id'] and x.get('init')]
+            asg = [x for x in walk(body) if x.get('kind') in ('BinaryOperator', 'CompoundAssignOperator', 'UnaryOperator') and
+                   x.get('opcode') in ('=', '+=', '-=', '++', '--') and strip(kids(x)[0]).get('kind') == 'DeclRefExpr' and
+                   strip(kids(x)[0])['referencedDecl'].get('id') == n['referencedDecl']['id']]
+            if len(ds) == 1 and not asg:
+                return is_table_len([c for c in kids(ds[0]) if c.get('kind')][-1])
+            return False
+        if n.get('kind') == 'BinaryOperator' and n.get('opcode') == '/':
+            a_, b_ = [strip(x, casts=True) for x in kids(n)]
+            if a_.get('kind') != 'UnaryExprOrTypeTraitExpr' or b_.get('kind') != 'UnaryExprOrTypeTraitExpr' or \
+                    a_.get('name') != 'sizeof' or b_.get('name') != 'sizeof':
+                return False
+            ta, tb = [astdb.expr_text(x).replace(' ', '').replace('(', '').replace(')', '') for x in (a_, b_)]
+            return ta == 'sizeof%s' % tname and tb in ('sizeof%s[0]' % tname, 'sizeof*%s' % tname)
+        return False
+
+    def guarded_subscripts(n, guards, out):
+        if not isinstance(n, dict) or not n.get('kind'):
+            return
+        if n['kind'] == 'UnaryExprOrTypeTraitExpr':
+            return          # sizeof(table[0]) evaluates nothing
+        if n['kind'] == 'ArraySubscriptExpr' and astdb.ref_name(strip(kids(n)[0], casts=True)) == tname:
+            out.append((n, astdb.expr_text(strip(kids(n)[1], casts=True)), list(guards)))
+        if n['kind'] == 'IfStmt':
+            inner = n['inner']
+            guarded_subscripts(inner[0], guards, out)
+            guarded_subscripts(inner[1], guards + [(strip(inner[0], casts=True), True)], out)
+            if len(inner) > 2:
+                guarded_subscripts(inner[2], guards + [(strip(inner[0], casts=True), False)], out)
+            return
+        for c in n.get('inner', []):
+            guarded_subscripts(c, guards, out)
+    subs = []
+    guarded_subscripts(body, [], subs)
+    chk.require(subs, 'wasmModuleReadSection does not index %s' % tname)
+
+    def bounds(idx, guards):
+        for c, truth in guards:
+            if c.get('kind') != 'BinaryOperator':
+                continue
+            l_, r_ = kids(c)
+            lt, rt = astdb.expr_text(strip(l_, casts=True)), astdb.expr_text(strip(r_, casts=True))
+            op = c.get('opcode')
+            if truth and ((op == '<' and lt == idx and is_table_len(r_)) or (op == '>' and rt == idx and is_table_len(l_))):
+                return True
+            if not truth and ((op == '>=' and lt == idx and is_table_len(r_)) or (op == '<=' and rt == idx and is_table_len(l_))):
+                return True
+        return False
+    for n_, idx, guards in subs:
+        chk.expect(bounds(idx, guards), 'R08.3', 'id-bounds',
+                   'the reader table (%d entries) is indexed with %s outside a check `%s < number of entries` (enclosing conditions: %r)'
+                   % (tlen, idx, idx, [astdb.expr_text(c) for c, _t in guards]), site + ':bounds')
 
 
 def _inside_same_block(nd, call, body):
